@@ -106,8 +106,21 @@ theorem C15_gen_folder_methods (r : FolderRec) :
   obtain ⟨g, h, v⟩ := r
   refine ⟨?_, ?_, ?_, ?_, ?_, ?_⟩
   · simp only [Folder.verb, Folder.restore, folderRestore]
-    by_cases hd : g.deleted = true <;> by_cases hc : g.restoreCountdown ≤ 0 <;> simp [hd, hc]
-    all_goals (cases g; simp_all)
+    -- every comparison of the countdown with 0 the source may use, decided in both cases
+    by_cases hd : g.deleted = true <;> rcases Int.lt_or_le 0 g.restoreCountdown with hp | hle
+    · have h1 : ¬ g.restoreCountdown ≤ 0 := by omega
+      have h2 : g.restoreCountdown > 0 := hp
+      have h3 : g.restoreCountdown ≠ 0 := by omega
+      simp [hd, hp, h1, h2, h3] <;> (cases g; simp_all)
+    · have h1 : ¬ (0 < g.restoreCountdown) := by omega
+      have h2 : ¬ g.restoreCountdown > 0 := h1
+      simp [hd, hle, h1, h2] <;> (cases g; simp_all)
+    · have h1 : ¬ g.restoreCountdown ≤ 0 := by omega
+      have h2 : g.restoreCountdown > 0 := hp
+      simp [hd, hp, h1, h2] <;> (cases g; simp_all)
+    · have h1 : ¬ (0 < g.restoreCountdown) := by omega
+      have h2 : ¬ g.restoreCountdown > 0 := h1
+      simp [hd, hle, h1, h2] <;> (cases g; simp_all)
   · simp [Folder.verb, folderCheckHash]
   · simp only [folderDelete]
     by_cases hd : g.deleted = true
@@ -116,7 +129,19 @@ theorem C15_gen_folder_methods (r : FolderRec) :
   · simp only [folderDelete]
     by_cases hd : g.deleted = true <;> simp [hd]
   · simp only [folderRestore]
-    by_cases hd : g.deleted = true <;> by_cases hc : g.restoreCountdown ≤ 0 <;> simp [hd, hc]
+    by_cases hd : g.deleted = true <;> rcases Int.lt_or_le 0 g.restoreCountdown with hp | hle
+    · have h1 : ¬ g.restoreCountdown ≤ 0 := by omega
+      have h2 : g.restoreCountdown > 0 := hp
+      simp [hd, hp, h1, h2]
+    · have h1 : ¬ (0 < g.restoreCountdown) := by omega
+      have h2 : ¬ g.restoreCountdown > 0 := h1
+      simp [hd, hle, h1, h2]
+    · have h1 : ¬ g.restoreCountdown ≤ 0 := by omega
+      have h2 : g.restoreCountdown > 0 := hp
+      simp [hd, hp, h1, h2]
+    · have h1 : ¬ (0 < g.restoreCountdown) := by omega
+      have h2 : ¬ g.restoreCountdown > 0 := h1
+      simp [hd, hle, h1, h2]
   · simp only [folderDelete]
     by_cases hd : g.deleted = true <;> simp [hd]
 
